@@ -109,20 +109,22 @@ theorem heap_extract (h : Heap.Heap) (hi : Heap.Inv h) :
         (v :: h'.data.toList).Perm h.data.toList ∧ (∀ x ∈ h.data.toList, ¬ better h.isMax x v = true)) :=
   ⟨extractTop_empty h, extractTop_spec h hi⟩
 
-/-- `esl_heap_IExtractTop(hp, NULL)` (delete the top value without retrieving it) on a non-empty valid heap:
-    deletes exactly a best element. FALSE on an empty heap for the code as written (`heap_extract_null_counterexample`,
-    known finding `C19:heap:extract-null-empty`, fix proposed) -/
-theorem heap_extract_null_partial (h : Heap.Heap) (hi : Heap.Inv h) (hne : 0 < h.data.size) :
-    ∃ h' v, extractTopNull h = some (h', true) ∧ Heap.Inv h' ∧ h'.isMax = h.isMax ∧
-      (v :: h'.data.toList).Perm h.data.toList ∧ (∀ x ∈ h.data.toList, ¬ better h.isMax x v = true) := by
-  obtain ⟨h', v, h1, h2, h3, h4, h5⟩ := extractTop_spec h hi hne
-  refine ⟨h', v, ?_, h2, h3, h4, h5⟩
-  have : ¬ h.data.size = 0 := by omega
-  simp [extractTopNull, this, h1]
+/-- `esl_heap_IExtractTop(hp, NULL)` (delete the top value without retrieving it): on a non-empty valid heap it deletes
+    exactly a best element; on an empty heap it returns `eslEOD` and leaves the heap alone (no store through NULL) -/
+theorem heap_extract_null (h : Heap.Heap) (hi : Heap.Inv h) :
+    (h.data.size = 0 → extractTopNull h = some (h, false)) ∧
+    (0 < h.data.size → ∃ h' v, extractTopNull h = some (h', true) ∧ Heap.Inv h' ∧ h'.isMax = h.isMax ∧
+      (v :: h'.data.toList).Perm h.data.toList ∧ (∀ x ∈ h.data.toList, ¬ better h.isMax x v = true)) := by
+  constructor
+  · intro he
+    simp [extractTopNull, extractTop_empty h he]
+  · intro hne
+    obtain ⟨h', v, h1, h2, h3, h4, h5⟩ := extractTop_spec h hi hne
+    exact ⟨h', v, by simp [extractTopNull, h1], h2, h3, h4, h5⟩
 
-/-- the empty-heap branch `*opt_val = 0` with `opt_val == NULL` -/
-theorem heap_extract_null_counterexample (isMax : Bool) : extractTopNull (create isMax) = none := by
-  simp [extractTopNull, create]
+/-- regression: the code before the fix (`*opt_val = 0` with `opt_val == NULL` in the empty-heap branch) faults -/
+theorem heap_extract_null_unguarded_faults (isMax : Bool) : extractTopNullUnguarded (create isMax) = none := by
+  simp [extractTopNullUnguarded, create]
 
 /-- extracting everything yields the sorted multiset of what was inserted (min-heap: ascending, max-heap: descending),
     for every input list (duplicates, sorted, reverse sorted, …) -/
